@@ -34,7 +34,7 @@ ASSUMPTIONS = ["two JSON documents are the same when they parse to equal values 
                "parameter-built documents keep balance points inside [T_min_seg, T_max_seg] (documents outside that box are the C11 finding)",
                "warnings/disqualifications are compared by their json() form"]
 REQUIRED_REACH = {"roundtrip.predict_compared": 40, "roundtrip.rejson_compared": 12, "roundtrip.metadata_compared": 5, "formula.rows_compared": 12000,
-                  "formula.models": 40, "second_generation": 6, "family.daily": 2, "family.billing": 1, "family.hourly": 2, "family.caltrack": 1}
+                  "formula.models": 40, "second_generation": 6, "model_object_reused": 3, "family.daily": 2, "family.billing": 1, "family.hourly": 2, "family.caltrack": 1}
 
 VIOL = []
 CUR = {}
@@ -173,7 +173,16 @@ def fitted_case(spec, keys):
             bdf = bdf.iloc[:24 * 200]
     data = fam.baseline_data(bdf)
     try:
-        m = fam.fit(fam.new_model(seed=spec["n"] + 1), data)
+        m = fam.new_model(seed=spec["n"] + 1)
+        if spec.get("reused_model_object"):
+            # the same model object was used for another meter before (fit A, predict, then fit B): nothing of A may survive in B
+            other = fam.baseline_frame(rng, tz=tz, days=days, noise=0.15, kind="heating" if fam.kind in ("daily", "billing") else "both")
+            if "observed" in other.columns:
+                other["observed"] = other["observed"] * 3.0 + 7.0
+            fam.fit(m, fam.baseline_data(other))
+            fam.predict(m, fam.reporting_data(fam.reporting_frame(rng, tz, "2019-02-01", 90, with_observed=True)))
+            I.reach("model_object_reused")
+        m = fam.fit(m, data)
     except Exception as e:
         # the statement quantifies over baselines that fit; a fit that raises (seen only for developer profiles on short data:
         # a split component with fewer days than segment_minimum_count) is counted, not judged here
@@ -264,6 +273,9 @@ def gen_cases(tier, seed):
     for i, f in enumerate(fams):
         cases.append(dict(kind="fitted", family=f, tz=zones[i % len(zones)], variant=[None, "warnings", "disqualified"][i % 3] if not f.startswith(("billing", "caltrack")) else None,
                           n=k, timeout=3000))
+        k += 1
+    for i, f in enumerate(["daily:current", "billing", "hourly:default", "daily:legacy"] if q else ["daily:current", "billing", "hourly:default", "daily:legacy", "hourly:default:ghi", "caltrack", "daily:custom-maps", "daily:dev-nofinal"]):
+        cases.append(dict(kind="fitted", family=f, tz=zones[i % len(zones)], variant=None, reused_model_object=True, n=k, timeout=3000))
         k += 1
     if not q:
         for i in range(30):
